@@ -219,7 +219,17 @@ class Points:
         sliced, points object.
         """
         val, space = self._compute_slice(val)
-        out = self._t[val]
+        if (
+            isinstance(val, list)
+            and len(val) > 1
+            and isinstance(val[-1], list)
+            and any(isinstance(v, (list, np.ndarray, torch.Tensor)) for v in val[:-1])
+        ):
+            # rows and columns are both given as index arrays: select the rows first and
+            # then the columns, torch would otherwise pair the two arrays element-wise
+            out = self._t[val[:-1]][..., val[-1]]
+        else:
+            out = self._t[val]
         if len(out.shape) == 1:
             out = out.unsqueeze(dim=0)
         return Points(out, space)
